@@ -231,6 +231,7 @@ func runC09(c *Ctx) {
 	c09Progress(c, "C09.1")
 	c09PanicSources(c, "C09.2")
 	c09ScannerRefill(c, "C09.3")
+	ruleVendoredEqualsUpstream(c, "C09.4", vendoredScanner)
 }
 
 func c09Progress(c *Ctx, rule string) {
